@@ -874,4 +874,62 @@ example : NoAfter cexCfgB (.update none) := rfl
 example : ∀ t ∈ findTriggers cexCfgIns tblT .after .insert, t.gran = .row := by
   intro t ht; simp [findTriggers, triggersFor, cexCfgIns, cexCfg, cexTrigIns, cexTrig, tblT, eventMatches] at ht
 
+/-! ## OLD and NEW are resolved by their tag -/
+
+/-- **substitution lemma**: evaluating an expression in which every column reference that `ρ`
+resolves has been replaced by its value gives, in any environment `ρ0`, the value of the
+original expression in the environment that asks `ρ` first — for every expression -/
+theorem C34_eval_subst_general (ρ ρ0 : Env) : ∀ e : TExpr,
+    (e.subst ρ).evalWith ρ0 =
+      e.evalWith (fun s c => match ρ s c with
+        | .ok v => .ok v
+        | .error _ => ρ0 s c) := by
+  intro e
+  induction e with
+  | lit v => rfl
+  | col s c =>
+    simp only [TExpr.subst, TExpr.evalWith]
+    cases h : ρ s c <;> simp [TExpr.evalWith]
+  | bin op a b iha ihb => simp only [TExpr.subst, TExpr.evalWith, iha, ihb]
+  | ite c t e ihc iht ihe => simp only [TExpr.subst, TExpr.evalWith, ihc, iht, ihe]
+  | coalesce a b iha ihb => simp only [TExpr.subst, TExpr.evalWith, iha, ihb]
+
+/-- the value of a trigger expression under (OLD, NEW) is the value of the expression with
+`OLD.c` / `NEW.c` replaced by the respective row's value -/
+theorem C34_eval_subst (ρ : Env) (e : TExpr) : (e.subst ρ).evalWith ρ = e.evalWith ρ := by
+  rw [C34_eval_subst_general]
+  congr 1
+  funext s c
+  cases ρ s c <;> rfl
+
+/-- … and once every reference is resolved, the substituted expression no longer depends on any
+environment at all -/
+theorem C34_eval_subst_closed (ρ ρ0 : Env) (e : TExpr) (h : ∀ s c, ∃ v, ρ s c = .ok v) :
+    (e.subst ρ).evalWith ρ0 = e.evalWith ρ := by
+  rw [C34_eval_subst_general]
+  congr 1
+  funext s c
+  obtain ⟨v, hv⟩ := h s c
+  simp [hv]
+
+/-- a resolver that ignores the OLD / NEW tag (both read the same image) -/
+def tagBlind (ρ : Env) : Env := fun s c =>
+  match s with
+  | .base => ρ .base c
+  | _ => ρ .old c
+
+/-- … violates the lemma: `OLD.c <> NEW.c` on a row whose column changed from 1 to 2 -/
+theorem C34_tag_blind_resolver_counterexample :
+    ¬ ∀ (ρ : Env) (e : TExpr), e.evalWith (tagBlind ρ) = e.evalWith ρ := by
+  intro h
+  have := h (envOf (some [.int 1]) (some [.int 2]) none) (.bin .ne (.col .old 0) (.col .new 0))
+  simp [TExpr.evalWith, tagBlind, envOf, fetch, tbinV] at this
+
+/-- non-vacuity of the WHEN gate on such an expression: the trigger fires for the changed row
+and not for the unchanged one -/
+example : evalWhen (.expr (.bin .ne (.col .old 1) (.col .new 1))) (some [.int 1, .int 5])
+    (some [.int 1, .int 6]) = .ok true := by rfl
+example : evalWhen (.expr (.bin .ne (.col .old 1) (.col .new 1))) (some [.int 1, .int 5])
+    (some [.int 1, .int 5]) = .ok false := by rfl
+
 end VibeProof.C34
